@@ -103,6 +103,23 @@ def pair_state(p):
 
 # ----------------------------------------------------------------------------- executing operations
 
+def _observe_color(c, order):
+    """(is_valid, rgb, error) of a Color, each accessor read once, in one of three orders"""
+    if order == 1:
+        err = c.error
+        rgb = c.rgb
+        valid = bool(c.is_valid)
+    elif order == 2:
+        rgb = c.rgb
+        err = c.error
+        valid = bool(c.is_valid)
+    else:
+        valid = bool(c.is_valid)
+        rgb = c.rgb
+        err = c.error
+    return valid, rgb, err
+
+
 def run_ops(ops, observe_env=False, tag=""):
     """ops (JSON-able): ["new", oid, text, bg, large] | ["color", oid, value] | ["readable", oid] |
     ["fix", oid, mode, vr, show, save] | ["bulk", [[text,bg]|[text,bg,large]...], mode, vr, save] | ["cli", css_text, argv]
@@ -123,24 +140,29 @@ def run_ops(ops, observe_env=False, tag=""):
                     ev["keyrepr"] = krepr("pair", text, bg, large)
                     with EnvWatch(observe_env) as w:
                         o = ColorPair(text, bg, large)
-                    valid = bool(o.is_valid)
-                    ev["valid"] = valid
+                    # the three accessors are read in a rotating order (what an accessor says must not depend on which
+                    # one was touched first on a fresh object)
                     parts = [o.text, o.bg]
-                    ev["rgbOk"] = all(is_rgb_ints(c.rgb) for c in parts) if valid else False
-                    ev["rgbNone"] = any((not c.is_valid) and c.rgb is None for c in parts) and all(c.is_valid or c.rgb is None for c in parts)
-                    errs = o.errors
+                    obs3 = [_observe_color(c, oid % 3) for c in parts]
+                    errs = o.errors if oid % 3 == 1 else None
+                    valid = bool(o.is_valid)
+                    if errs is None:
+                        errs = o.errors
+                    ev["valid"] = valid
+                    ev["rgbOk"] = all(is_rgb_ints(x[1]) for x in obs3) if valid else False
+                    ev["rgbNone"] = any((not x[0]) and x[1] is None for x in obs3) and all(x[0] or x[1] is None for x in obs3)
                     ev["errNonEmpty"] = (not valid) and len(errs) > 0 and all(isinstance(x, str) and x.strip() != "" for x in errs) \
-                        and all(isinstance(c.error, str) and c.error.strip() != "" for c in parts if not c.is_valid)
+                        and all(isinstance(x[2], str) and x[2].strip() != "" for x in obs3 if not x[0]) and valid == all(x[0] for x in obs3)
                 else:
                     val = dec(op[2])
                     ev["keyrepr"] = krepr("color", val)
                     with EnvWatch(observe_env) as w:
                         o = Color(val)
-                    valid = bool(o.is_valid)
+                    valid, rgb0, err0 = _observe_color(o, oid % 3)
                     ev["valid"] = valid
-                    ev["rgbOk"] = is_rgb_ints(o.rgb) if valid else False
-                    ev["rgbNone"] = (not valid) and o.rgb is None
-                    ev["errNonEmpty"] = (not valid) and isinstance(o.error, str) and o.error.strip() != ""
+                    ev["rgbOk"] = is_rgb_ints(rgb0) if valid else False
+                    ev["rgbNone"] = (not valid) and rgb0 is None
+                    ev["errNonEmpty"] = (not valid) and isinstance(err0, str) and err0.strip() != ""
                 objs[oid] = o
                 ev["dout"], ev["newFiles"], ev["modFiles"] = w.dout, w.new, w.mod
             except BaseException as ex:
